@@ -86,22 +86,22 @@ Section RewriteInd.
 End RewriteInd.
 
 (* the positive fragment: no difference anywhere *)
-Fixpoint positive (rw : rewrite) : bool :=
+Fixpoint positive_rw (rw : rewrite) : bool :=
   match rw with
   | This | Computed _ | TTU _ _ => true
   | Union l | Inter l =>
       (fix all (l : list rewrite) : bool :=
-         match l with [] => true | x :: l' => positive x && all l' end) l
+         match l with [] => true | x :: l' => positive_rw x && all l' end) l
   | Diff _ _ => false
   end.
 
-Lemma positive_Union : forall l, positive (Union l) = forallb positive l.
+Lemma positive_Union : forall l, positive_rw (Union l) = forallb positive_rw l.
 Proof. intro l; simpl; induction l as [|x l IH]; simpl; [reflexivity | rewrite IH; reflexivity]. Qed.
-Lemma positive_Inter : forall l, positive (Inter l) = forallb positive l.
+Lemma positive_Inter : forall l, positive_rw (Inter l) = forallb positive_rw l.
 Proof. intro l; simpl; induction l as [|x l IH]; simpl; [reflexivity | rewrite IH; reflexivity]. Qed.
 
 Definition positive_model (m : model) : bool :=
-  forallb (fun p : tid * reldef => positive (rd_rw (snd p))) (all_rels m).
+  forallb (fun p : tid * reldef => positive_rw (rd_rw (snd p))) (all_rels m).
 
 Lemma find_rel_In : forall l r rd, find_rel l r = Some rd -> In rd l /\ rd_rel rd = r.
 Proof.
@@ -130,7 +130,7 @@ Proof.
 Qed.
 
 Lemma positive_model_rel : forall m t r rd,
-  positive_model m = true -> get_relation m t r = Some rd -> positive (rd_rw rd) = true.
+  positive_model m = true -> get_relation m t r = Some rd -> positive_rw (rd_rw rd) = true.
 Proof.
   intros m t r rd Hp H. unfold positive_model in Hp. rewrite forallb_forall in Hp.
   apply (Hp (t, rd)). eapply get_relation_all_rels; exact H.
@@ -248,7 +248,7 @@ Section Eval.
 
   Theorem eval_rw_mono : forall s1 s2 v w,
     store_incl s1 s2 -> vle v w ->
-    forall o r rw, positive rw = true ->
+    forall o r rw, positive_rw rw = true ->
     le3 (eval_rw m conds s1 subj v o r rw) (eval_rw m conds s2 subj w o r rw) = true.
   Proof.
     intros s1 s2 v w Hs Hv o r rw. induction rw as [|r'|ts c|l IH|l IH|b s IHb IHs] using rewrite_ind'; intro Hp.
@@ -485,7 +485,7 @@ Section Levels.
   Variable m : model.
 
   Lemma deps_positive : forall t self rw d,
-    positive rw = true -> In d (deps m t self false rw) -> snd d = false.
+    positive_rw rw = true -> In d (deps m t self false rw) -> snd d = false.
   Proof.
     intros t self rw d. induction rw as [|r'|ts c|l IH|l IH|b s IHb IHs] using rewrite_ind'; intros Hp Hd.
     - simpl in Hd. apply in_map_iff in Hd. destruct Hd as [p [Hp' _]]. subst d. reflexivity.
@@ -757,3 +757,186 @@ Section Store.
     le3 (holds3 m conds s subj atoms o r) (holds3 m conds (s ++ extra) subj atoms o r) = true.
   Proof. intros s extra o r. apply holds3_mono_tuples. apply store_incl_app. Qed.
 End Store.
+
+(* ================================================================== *)
+(* 6. the universe of atoms                                            *)
+(* ================================================================== *)
+(* lfp only assigns atoms of the universe it is given.  A universe is adequate when it is closed
+   under "another relation of the same object", contains the atom of every valid tuple and every
+   relation of a userset subject's object; then (for models without an empty intersection, whose
+   value would be T on every object) atoms outside the universe evaluate to F and the lfp
+   valuation is a fixpoint on ALL atoms. *)
+
+Definition defined_rels (m : model) (t : tid) : list rid :=
+  match find_type m t with Some d => map rd_rel (td_rels d) | None => [] end.
+
+Lemma find_rel_none : forall l r, find_rel l r = None -> ~ In r (map rd_rel l).
+Proof.
+  induction l as [|d l IH]; simpl; intros r H; [intros []|].
+  destruct (N.eqb (rd_rel d) r) eqn:He; [discriminate H|].
+  intros [Hd|Hd]; [apply N.eqb_neq in He; contradiction | exact (IH r H Hd)].
+Qed.
+
+Lemma rel_defined_In : forall m t r, rel_defined m t r = true -> In r (defined_rels m t).
+Proof.
+  intros m t r H. unfold rel_defined, get_relation, defined_rels in *.
+  destruct (find_type m t) as [d|]; [|discriminate H].
+  destruct (find_rel (td_rels d) r) as [rd|] eqn:Hr; [|discriminate H].
+  apply find_rel_In in Hr. destruct Hr as [Hin Hr]. apply in_map_iff. exists rd; auto.
+Qed.
+
+Fixpoint no_empty_inter (rw : rewrite) : bool :=
+  match rw with
+  | This | Computed _ | TTU _ _ => true
+  | Union l =>
+      (fix all (l : list rewrite) : bool :=
+         match l with [] => true | x :: l' => no_empty_inter x && all l' end) l
+  | Inter l =>
+      match l with [] => false | _ => true end &&
+      (fix all (l : list rewrite) : bool :=
+         match l with [] => true | x :: l' => no_empty_inter x && all l' end) l
+  | Diff b s => no_empty_inter b && no_empty_inter s
+  end.
+
+Lemma no_empty_inter_Union : forall l, no_empty_inter (Union l) = forallb no_empty_inter l.
+Proof. intro l; simpl; induction l as [|x l IH]; simpl; [reflexivity | rewrite IH; reflexivity]. Qed.
+Lemma no_empty_inter_Inter : forall l,
+  no_empty_inter (Inter l) = match l with [] => false | _ => true end && forallb no_empty_inter l.
+Proof.
+  intro l. reflexivity.
+Qed.
+
+Definition no_empty_inter_model (m : model) : bool :=
+  forallb (fun p : tid * reldef => no_empty_inter (rd_rw (snd p))) (all_rels m).
+
+Definition universe_ok (m : model) (conds : list cid) (store : list tuple) (subj : subject)
+           (atoms : list atom) : bool :=
+  forallb (fun a : atom =>
+             forallb (fun r' => existsb (atom_eqb (fst a, r')) atoms)
+                     (defined_rels m (otype (fst a)))) atoms &&
+  forallb (fun t => existsb (atom_eqb (t_obj t, t_rel t)) atoms) (vtuples m conds store) &&
+  match subj with
+  | SSet o _ => forallb (fun r' => existsb (atom_eqb (o, r')) atoms) (defined_rels m (otype o))
+  | _ => true
+  end.
+
+Section Universe.
+  Variable m : model.
+  Variable conds : list cid.
+  Variable store : list tuple.
+  Variable subj : subject.
+  Variable atoms : list atom.
+  Hypothesis Hu : universe_ok m conds store subj atoms = true.
+
+  Lemma universe_obj_closed : forall o r r',
+    In (o, r) atoms -> rel_defined m (otype o) r' = true -> In (o, r') atoms.
+  Proof.
+    intros o r r' Hin Hd. unfold universe_ok in Hu.
+    apply andb_true_iff in Hu. destruct Hu as [Hu12 _].
+    apply andb_true_iff in Hu12. destruct Hu12 as [Hu1 _].
+    rewrite forallb_forall in Hu1. specialize (Hu1 (o, r) Hin). simpl in Hu1.
+    rewrite forallb_forall in Hu1. apply existsb_atom_In. apply Hu1. apply rel_defined_In; exact Hd.
+  Qed.
+
+  Lemma universe_tuples : forall t, In t (vtuples m conds store) -> In (t_obj t, t_rel t) atoms.
+  Proof.
+    intros t Ht. unfold universe_ok in Hu.
+    apply andb_true_iff in Hu. destruct Hu as [Hu12 _].
+    apply andb_true_iff in Hu12. destruct Hu12 as [_ Hu2].
+    rewrite forallb_forall in Hu2. apply existsb_atom_In. apply Hu2; exact Ht.
+  Qed.
+
+  Lemma universe_subject : forall o r0 r',
+    subj = SSet o r0 -> rel_defined m (otype o) r' = true -> In (o, r') atoms.
+  Proof.
+    intros o r0 r' Hs Hd. unfold universe_ok in Hu.
+    apply andb_true_iff in Hu. destruct Hu as [_ Hu3]. rewrite Hs in Hu3.
+    rewrite forallb_forall in Hu3. apply existsb_atom_In. apply Hu3. apply rel_defined_In; exact Hd.
+  Qed.
+
+  Lemma tuples_of_In : forall t o r,
+    In t (tuples_of m conds store o r) ->
+    In t (vtuples m conds store) /\ t_obj t = o /\ t_rel t = r.
+  Proof.
+    intros t o r H. unfold tuples_of in H. apply filter_In in H. destruct H as [H1 H2].
+    apply andb_true_iff in H2. destruct H2 as [H2 H3].
+    apply obj_eqb_eq in H2. apply N.eqb_eq in H3. auto.
+  Qed.
+
+  (* an object none of whose defined relations is in the universe *)
+  Section Outside.
+    Variable v : valuation.
+    Hypothesis Hv : forall a, ~ In a atoms -> vget v a = F.
+    Variable o : obj.
+    Variable r : rid.
+    Hypothesis Hdef : rel_defined m (otype o) r = true.
+    Hypothesis Hout : ~ In (o, r) atoms.
+
+    Lemma outside_all : forall r', ~ In (o, r') atoms.
+    Proof. intros r' H. apply Hout. eapply universe_obj_closed; eassumption. Qed.
+
+    Lemma outside_tuples_of : forall r', tuples_of m conds store o r' = [].
+    Proof.
+      intro r'. destruct (tuples_of m conds store o r') as [|t l] eqn:Ht; [reflexivity|].
+      exfalso. assert (Hin : In t (tuples_of m conds store o r')) by (rewrite Ht; left; reflexivity).
+      apply tuples_of_In in Hin. destruct Hin as [Hin [Ho Hr]].
+      apply (outside_all r'). rewrite <- Ho, <- Hr. apply universe_tuples; exact Hin.
+    Qed.
+
+    Lemma outside_atomval : forall r', atomval subj v o r' = F.
+    Proof.
+      intro r'. unfold atomval. destruct (subject_eqb subj (SSet o r')) eqn:Hs.
+      - exfalso. apply subject_eqb_eq in Hs. apply Hout. eapply universe_subject; eassumption.
+      - apply Hv. apply outside_all.
+    Qed.
+
+    Lemma outside_eval_rw : forall rw,
+      no_empty_inter rw = true -> eval_rw m conds store subj v o r rw = F.
+    Proof.
+      intro rw. induction rw as [|r'|ts c|l IH|l IH|b s IHb IHs] using rewrite_ind'; intro Hn.
+      - simpl. rewrite outside_tuples_of. reflexivity.
+      - simpl. apply outside_atomval.
+      - simpl. rewrite outside_tuples_of. reflexivity.
+      - rewrite eval_rw_Union. rewrite no_empty_inter_Union, forallb_forall in Hn.
+        apply or3_list_F_iff. intros x Hx. apply in_map_iff in Hx. destruct Hx as [y [Hy Hin]].
+        subst x. rewrite Forall_forall in IH. apply IH; [exact Hin | apply Hn; exact Hin].
+      - rewrite eval_rw_Inter. rewrite no_empty_inter_Inter in Hn.
+        apply andb_true_iff in Hn. destruct Hn as [Hne Hn]. rewrite forallb_forall in Hn.
+        destruct l as [|x l]; [discriminate Hne|].
+        apply and3_list_F_iff. simpl. left. rewrite Forall_forall in IH.
+        apply IH; [left; reflexivity | apply Hn; left; reflexivity].
+      - simpl in Hn. apply andb_true_iff in Hn. destruct Hn as [Hb _].
+        simpl. rewrite (IHb Hb). reflexivity.
+    Qed.
+  End Outside.
+
+  Hypothesis Hne : no_empty_inter_model m = true.
+
+  Lemma outside_eval_atom : forall v a,
+    (forall b, ~ In b atoms -> vget v b = F) -> ~ In a atoms ->
+    eval_atom m conds store subj v a = F.
+  Proof.
+    intros v [o r] Hv Ha. unfold eval_atom. simpl.
+    destruct (get_relation m (otype o) r) as [rd|] eqn:Hr; [|reflexivity].
+    apply outside_eval_rw; try assumption.
+    - unfold rel_defined. rewrite Hr. reflexivity.
+    - unfold no_empty_inter_model in Hne. rewrite forallb_forall in Hne.
+      apply (Hne (otype o, rd)). eapply get_relation_all_rels; exact Hr.
+  Qed.
+
+  Hypothesis Hpos : positive_model m = true.
+
+  (* the reference valuation of a positive model is a fixpoint on ALL atoms *)
+  Theorem positive_lfp_fixpoint_all : forall a,
+    eval_atom m conds store subj (fst (lfp m conds store subj atoms)) a =
+    vget (fst (lfp m conds store subj atoms)) a.
+  Proof.
+    intro a. destruct (existsb (atom_eqb a) atoms) eqn:Ha.
+    - apply existsb_atom_In in Ha. apply positive_lfp_fixpoint; assumption.
+    - assert (Hnin : ~ In a atoms).
+      { intro H. apply existsb_atom_In in H. rewrite H in Ha. discriminate Ha. }
+      rewrite (positive_lfp_outside m Hpos conds store subj atoms a Hnin).
+      apply outside_eval_atom; [|exact Hnin].
+      intros b Hb. apply positive_lfp_outside; assumption.
+  Qed.
+End Universe.
